@@ -255,6 +255,11 @@ class USBInTransferManager(Elaboratable):
                         read_stream_ended  .eq(0)
                     ]
 
+                    # If our PID sequence is being reset in this very cycle, the packet we've just
+                    # queued is the first one of the new sequence.
+                    with m.If(self.reset_sequence):
+                        m.d.usb += self.data_pid.eq(self.start_with_data1)
+
 
             # WAIT_TO_SEND -- we now have at least a buffer full of data to send; we'll
             # need to wait for an IN token to send it.
